@@ -642,6 +642,11 @@ func (sa *Application) AddAllocationAsk(ask *Allocation) error {
 	if ask.IsAllocated() || resources.IsZero(ask.GetAllocatedResource()) {
 		return fmt.Errorf("invalid ask added to app %s: %v", sa.ApplicationID, ask)
 	}
+	// a terminated application is removed from its queue and from the partition in the background: until that is
+	// done it can still be found, it cannot accept new asks
+	if sa.queue == nil || sa.IsCompleted() || sa.IsFailed() || sa.IsExpired() || sa.IsRejected() {
+		return fmt.Errorf("ask %s rejected: application %s is terminated (%s)", ask.GetAllocationKey(), sa.ApplicationID, sa.CurrentState())
+	}
 	if ask.createTime.Before(sa.submissionTime) {
 		sa.submissionTime = ask.createTime
 	}
